@@ -19,7 +19,8 @@ describe(
     "comparison); the stratified test pools statistic and degrees of freedom under the same path condition from positions 0 and 2 of "
     "the per-stratum result and computes the p-value from both; the contingency table index (x*ny + y) agrees with its reshape "
     "(nx, ny); X/Y in Z is rejected; partial correlation pairs each variable with its own regression coefficients and correlates "
-    "the two residuals.",
+    "the two residuals, and the coefficient / p-value names are only ever bound to the Pearson test's output (no literal behind a "
+    "data-dependent guard); lambda_ is never tested by truthiness (0 is the G-test).",
     ["the numeric value of statistics and p-values", "shift/scale invariance of the partial-correlation test (the regression has no intercept: "
      "a real shift-invariance defect that no structural rule here can see)", "symmetry in X and Y as a numeric identity"],
 )
